@@ -537,5 +537,11 @@ class PlaceholderMetadataIsReadOnly(Target):
         return []
 
 
-TARGETS = [PlaceholderMetadataIsReadOnly(), RewriteAllReferences(), GetAllLoopedIds(), NextIterationKeepsStoredDocument(), DiscoverPlaceholders(), ComputeDoWhileState(), MapPlaceholder(), LoopedReferencePaths(), RewriteComponents(), InstantiateDoWhile()]
+# loop instances are named <iteration>#<name>: graph.ComponentIdentifier / DataReference must parse and print such names
+# consistently (C09's contracts on the real classes, whose producer shapes include loop instances)
+from pyvc.spec import shared as _shared
+import contracts.C09 as _c09
+REFERENCE_CLASSES = [_shared(_c09.ComponentIdentifierClass(), 'C05'), _shared(_c09.DataReferenceClass(), 'C05')]
+
+TARGETS = REFERENCE_CLASSES + [PlaceholderMetadataIsReadOnly(), RewriteAllReferences(), GetAllLoopedIds(), NextIterationKeepsStoredDocument(), DiscoverPlaceholders(), ComputeDoWhileState(), MapPlaceholder(), LoopedReferencePaths(), RewriteComponents(), InstantiateDoWhile()]
 LEMMAS = []
